@@ -1509,6 +1509,11 @@ class sptensor:
             raise ValueError(
                 "Cannot call nvecs on sptensor with only singleton dimensions"
             )
+        if not (0 <= n < self.ndims) or not (1 <= r <= self.shape[n]):
+            assert False, (
+                "Mode n must be a mode of the tensor and r between 1 and the "
+                "size of that mode"
+            )
         # The Gram matrix is formed in double precision whatever the stored type
         tnt = mutatable_sptensor.spmatrix().transpose().astype(float)
         y = tnt.transpose().dot(tnt)
